@@ -5,6 +5,15 @@
 //!   q|r basic a | q|r storage a k | q|r code h | q|r bh n hint | q|r hs a      (q = Database, r = DatabaseRef)
 //!   ins-info a bal nonce codehash code khash | ins-slot a k v | rep-storage a k:v/k:v | load a
 //!   commit addr,flags,bal,nonce,codehash,code,khash,k:v/k:v ...
+//!   paths basic a | paths storage a k | paths code h | paths bh n hint | paths hs a
+//!       = the SAME read through every access path of the current value (only where the value can be
+//!       borrowed as a `DatabaseRef`: map, EmptyDB, CacheDB, Box<CacheDB>, &mut CacheDB, components):
+//!       ref (`x_ref` on the value), amp (`&T`), ampamp (`&&T`), boxref (`Box<&T>`), arc, rc,
+//!       wrap (`WrapDatabaseRef(&T)` as `Database`), wrapmut (`&mut WrapDatabaseRef`), wrapbox (`Box<WrapDatabaseRef>`),
+//!       nested / nestedref (a fresh `CacheDB::new(&T)` through `Database` / `DatabaseRef`), nestedagain (same
+//!       query again on that nested layer), nested2 / nested2ref (`CacheDB<CacheDB<&T>>`), state (`State` over
+//!       `WrapDatabaseRef(&T)`, `basic` first for a storage read), comp / compref (`DatabaseComponents` over `&T`).
+//!       reply: `ref=<answer>;amp=<answer>;…`; nothing is written to the current value.
 //! replies: `ok`, `bad-op`, `panic`, `none`, `some bal nonce codehash code`, a word, code bytes, `0|1`,
 //! and for load `<account_state> bal nonce codehash code`.
 use crate::*;
@@ -207,6 +216,18 @@ impl Cur {
     }
     fn can_ref(&self) -> bool {
         self.dyn_ref().is_some()
+    }
+    /// every value that can be borrowed as a `DatabaseRef` (for `r` / `paths`): as `dyn_ref`, plus
+    /// `Box<CacheDB>` (auto_impl `Box`) and the `CacheDB` behind a `&mut`
+    pub fn ref_view(&self) -> Option<&dyn DatabaseRef<Error = Infallible>> {
+        match self {
+            Cur::BoxedCache(d) => Some(d),
+            Cur::MutRef(ViaMutRef(inner)) => match inner.as_ref() {
+                Cur::Cache(d) => Some(d),
+                _ => None,
+            },
+            c => c.dyn_ref(),
+        }
     }
     fn into_ref(self) -> DynRef {
         match self {
@@ -439,6 +460,135 @@ fn query_ref(d: &dyn DatabaseRef<Error = Infallible>, t: &[&str]) -> String {
     }
 }
 
+/// `StateRef` / `BlockHashRef` over a borrowed `DatabaseRef`, to put a wrapper under `DatabaseComponents`
+pub struct Parts<'a>(pub &'a dyn DatabaseRef<Error = Infallible>);
+impl StateRef for Parts<'_> {
+    type Error = Infallible;
+    fn basic(&self, a: Address) -> Result<Option<AccountInfo>, Infallible> {
+        self.0.basic_ref(a)
+    }
+    fn code_by_hash(&self, h: B256) -> Result<Bytecode, Infallible> {
+        self.0.code_by_hash_ref(h)
+    }
+    fn storage(&self, a: Address, k: U256) -> Result<U256, Infallible> {
+        self.0.storage_ref(a, k)
+    }
+}
+impl BlockHashRef for Parts<'_> {
+    type Error = Infallible;
+    fn block_hash(&self, n: u64) -> Result<B256, Infallible> {
+        self.0.block_hash_ref(n)
+    }
+}
+/// unwraps the error enum of `DatabaseComponents` (every method is the one of `DatabaseComponents`)
+pub struct CompOf<S, B>(pub DatabaseComponents<S, B>);
+impl<S: DbStateTrait<Error = Infallible>, B: BlockHash<Error = Infallible>> Database for CompOf<S, B> {
+    type Error = Infallible;
+    fn basic(&mut self, a: Address) -> Result<Option<AccountInfo>, Infallible> {
+        Ok(Database::basic(&mut self.0, a).unwrap())
+    }
+    fn code_by_hash(&mut self, h: B256) -> Result<Bytecode, Infallible> {
+        Ok(Database::code_by_hash(&mut self.0, h).unwrap())
+    }
+    fn has_storage(&mut self, a: Address) -> Result<bool, Infallible> {
+        Ok(Database::has_storage(&mut self.0, a).unwrap())
+    }
+    fn storage(&mut self, a: Address, k: U256) -> Result<U256, Infallible> {
+        Ok(Database::storage(&mut self.0, a, k).unwrap())
+    }
+    fn block_hash(&mut self, n: u64) -> Result<B256, Infallible> {
+        Ok(Database::block_hash(&mut self.0, n).unwrap())
+    }
+}
+impl<S: StateRef<Error = Infallible>, B: BlockHashRef<Error = Infallible>> DatabaseRef for CompOf<S, B> {
+    type Error = Infallible;
+    fn basic_ref(&self, a: Address) -> Result<Option<AccountInfo>, Infallible> {
+        Ok(self.0.basic_ref(a).unwrap())
+    }
+    fn code_by_hash_ref(&self, h: B256) -> Result<Bytecode, Infallible> {
+        Ok(self.0.code_by_hash_ref(h).unwrap())
+    }
+    fn has_storage_ref(&self, a: Address) -> Result<bool, Infallible> {
+        Ok(self.0.has_storage_ref(a).unwrap())
+    }
+    fn storage_ref(&self, a: Address, k: U256) -> Result<U256, Infallible> {
+        Ok(self.0.storage_ref(a, k).unwrap())
+    }
+    fn block_hash_ref(&self, n: u64) -> Result<B256, Infallible> {
+        Ok(self.0.block_hash_ref(n).unwrap())
+    }
+}
+
+/// the query through the `DatabaseRef` impl of the concrete type `T`
+fn via<T: DatabaseRef<Error = Infallible>>(x: &T, t: &[&str]) -> String {
+    query_ref(x, t)
+}
+/// the query through the `Database` impl of the concrete type `T`
+fn viam<T: Database<Error = Infallible>>(x: &mut T, t: &[&str]) -> String {
+    query_mut(x, t)
+}
+
+pub const PATHS: &[&str] = &[
+    "ref", "amp", "ampamp", "boxref", "arc", "rc", "wrap", "wrapmut", "wrapbox", "nested", "nestedref", "nestedagain",
+    "nested2", "nested2ref", "state", "comp", "compref",
+];
+
+/// the same read through every access path of `d`; `d` itself is only borrowed immutably
+fn paths_op(d: &dyn DatabaseRef<Error = Infallible>, t: &[&str]) -> String {
+    type D<'a> = &'a dyn DatabaseRef<Error = Infallible>;
+    let first = query_ref(d, t);
+    if first == "bad-op" {
+        return first;
+    }
+    let mut out: Vec<String> = vec![];
+    for p in PATHS {
+        let r = guarded(std::panic::AssertUnwindSafe(|| match *p {
+            "ref" => query_ref(d, t),
+            "amp" => via::<D>(&d, t),
+            "ampamp" => via::<&D>(&&d, t),
+            "boxref" => via::<Box<D>>(&Box::new(d), t),
+            "arc" => via::<Arc<D>>(&Arc::new(d), t),
+            "rc" => via::<std::rc::Rc<D>>(&std::rc::Rc::new(d), t),
+            "wrap" => viam(&mut WrapDatabaseRef(d), t),
+            "wrapmut" => {
+                let mut w = WrapDatabaseRef(d);
+                let mut r = &mut w;
+                viam::<&mut WrapDatabaseRef<D>>(&mut r, t)
+            }
+            "wrapbox" => viam::<Box<WrapDatabaseRef<D>>>(&mut Box::new(WrapDatabaseRef(d)), t),
+            "nested" => viam(&mut CacheDB::new(d), t),
+            "nestedref" => via(&CacheDB::new(d), t),
+            "nestedagain" => {
+                let mut c = CacheDB::new(d);
+                let _ = viam(&mut c, t);
+                viam(&mut c, t)
+            }
+            "nested2" => viam(&mut CacheDB::new(CacheDB::new(d)), t),
+            "nested2ref" => via(&CacheDB::new(CacheDB::new(d)), t),
+            "state" => {
+                let mut s = revm::db::State::builder().with_database(WrapDatabaseRef(d)).build();
+                if let ["storage", a, _] = t {
+                    if let Some(a) = addr(a) {
+                        let _ = s.basic(a);
+                    }
+                }
+                viam(&mut s, t)
+            }
+            "comp" => {
+                let parts = Parts(d);
+                viam(&mut CompOf(DatabaseComponents { state: &parts, block_hash: &parts }), t)
+            }
+            "compref" => {
+                let parts = Parts(d);
+                via(&CompOf(DatabaseComponents { state: &parts, block_hash: &parts }), t)
+            }
+            _ => unreachable!(),
+        }));
+        out.push(format!("{p}={r}"));
+    }
+    out.join(";")
+}
+
 /// one request line on the current database value
 pub fn exec(cur: &mut Option<Cur>, line: &str) -> String {
     let t: Vec<&str> = line.split(' ').collect();
@@ -505,8 +655,12 @@ pub fn exec(cur: &mut Option<Cur>, line: &str) -> String {
             if ok { "ok".into() } else { "bad-op".into() }
         }
         ["q", rest @ ..] => query_mut(cur.as_mut().unwrap().dyn_mut(), rest),
-        ["r", rest @ ..] => match cur.as_ref().unwrap().dyn_ref() {
+        ["r", rest @ ..] => match cur.as_ref().unwrap().ref_view() {
             Some(d) => query_ref(d, rest),
+            None => "bad-op".into(),
+        },
+        ["paths", rest @ ..] => match cur.as_ref().unwrap().ref_view() {
+            Some(d) => paths_op(d, rest),
             None => "bad-op".into(),
         },
         _ => match cur.as_mut().unwrap() {
@@ -643,16 +797,53 @@ fn gen_change(rng: &mut Rng, p: &Pool, a: u64) -> String {
     format!("{:x},{},{},{}", a, flags, info.join(","), if kv.is_empty() { "-".to_string() } else { kv.join("/") })
 }
 
-fn gen_commit(rng: &mut Rng, p: &Pool) -> String {
+fn gen_commit_on(rng: &mut Rng, p: &Pool) -> (String, Vec<u64>) {
     let k = rng.range(1, 3) as usize;
     let mut addrs = p.addrs.clone();
     let mut parts = vec![];
+    let mut hit = vec![];
     for _ in 0..k {
         let i = rng.below(addrs.len() as u64) as usize;
         let a = addrs.remove(i);
+        hit.push(a);
         parts.push(gen_change(rng, p, a));
     }
-    format!("db commit {}", parts.join(" "))
+    (format!("db commit {}", parts.join(" ")), hit)
+}
+fn gen_commit(rng: &mut Rng, p: &Pool) -> String {
+    gen_commit_on(rng, p).0
+}
+
+/// after a change of `hit`: read the affected accounts back through every access path and through
+/// the mutable path (all read kinds; the pool slots are the ones the underlying database may hold)
+fn read_back(rng: &mut Rng, p: &Pool, hit: &[u64], lines: &mut Vec<String>) {
+    for a in hit {
+        let mut ks = p.slots.clone();
+        if rng.chance(1, 2) {
+            ks.truncate(3);
+        }
+        for k in &ks {
+            lines.push(format!("db paths storage {:x} {}", a, hx(*k)));
+        }
+        lines.push(format!("db paths basic {:x}", a));
+        if rng.chance(1, 3) {
+            lines.push(format!("db paths hs {:x}", a));
+        }
+        if rng.chance(1, 2) {
+            lines.push(format!("db q basic {:x}", a));
+            for k in &ks {
+                lines.push(format!("db q storage {:x} {}", a, hx(*k)));
+                if rng.chance(1, 3) {
+                    lines.push(format!("db r storage {:x} {}", a, hx(*k)));
+                }
+            }
+        }
+    }
+    if rng.chance(1, 3) {
+        lines.push(format!("db paths code {}", hxh(rng.pick(&p.codes).1)));
+        let n = *rng.pick(&p.nums);
+        lines.push(format!("db paths bh {:x} {}", n, keccak_dec(n)));
+    }
 }
 
 fn gen_case(rng: &mut Rng, lines: &mut Vec<String>, max_ops: usize) {
@@ -694,6 +885,7 @@ fn gen_case(rng: &mut Rng, lines: &mut Vec<String>, max_ops: usize) {
     let nops = rng.range(4, max_ops as u64) as usize;
     for _ in 0..nops {
         let can_ref = matches!(top, Top::Map | Top::Empty | Top::Cache | Top::Comp);
+        let ref_view = can_ref || matches!(top, Top::BoxedCache | Top::MutRefCache);
         let r = rng.below(100);
         if r < 12 {
             // wrap
@@ -710,12 +902,15 @@ fn gen_case(rng: &mut Rng, lines: &mut Vec<String>, max_ops: usize) {
                     _ => Top::Comp,
                 };
             }
-        } else if r < 62 {
+        } else if r < 56 {
             lines.push(gen_query(rng, &p, &mut loaded, top, "q"));
-        } else if r < 72 {
+        } else if r < 64 {
             lines.push(gen_query(rng, &p, &mut loaded, top, "r"));
+        } else if r < 72 && (ref_view || rng.chance(1, 8)) {
+            lines.push(gen_query(rng, &p, &mut loaded, top, "paths"));
         } else if top == Top::Cache {
             let a = *rng.pick(&p.addrs);
+            let mut hit = vec![a];
             match rng.below(8) {
                 0 | 1 => lines.push(format!("db ins-info {:x} {}", a, gen_info(rng, &p, true))),
                 2 | 3 => lines.push(format!("db ins-slot {:x} {} {}", a, hx(*rng.pick(&p.slots)), hx(U256::from(rng.below(50))))),
@@ -725,10 +920,21 @@ fn gen_case(rng: &mut Rng, lines: &mut Vec<String>, max_ops: usize) {
                     lines.push(format!("db rep-storage {:x} {}", a, m));
                 }
                 5 => lines.push(format!("db load {:x}", a)),
-                _ => lines.push(gen_commit(rng, &p)),
+                _ => {
+                    let (l, h) = gen_commit_on(rng, &p);
+                    lines.push(l);
+                    hit = h;
+                }
+            }
+            if rng.chance(1, 2) {
+                read_back(rng, &p, &hit, lines);
             }
         } else if matches!(top, Top::BoxedCache | Top::MutRefCache) && rng.chance(1, 2) {
-            lines.push(gen_commit(rng, &p));
+            let (l, h) = gen_commit_on(rng, &p);
+            lines.push(l);
+            if rng.chance(1, 2) {
+                read_back(rng, &p, &h, lines);
+            }
         } else if rng.chance(1, 10) {
             // malformed / not applicable here
             lines.push(match rng.below(4) {
@@ -856,10 +1062,149 @@ fn scenarios(lines: &mut Vec<String>) {
     }
 }
 
+/// Every kind of change of an account x what the layer had cached of it before x the wrapper the
+/// change goes through x every wrapper stack put on top afterwards, over an underlying database that
+/// holds NON-ZERO storage for the affected account; then every read kind through every access path
+/// (`paths`), through `Database` (`q`) and `DatabaseRef` (`r`), for the affected account, another
+/// account with storage and an absent one. The complete cross product is generated on every run (about 6000 cases).
+fn commit_grid(lines: &mut Vec<String>) {
+    let ke = hxh(KECCAK_EMPTY);
+    let code = vec![0x60u8, 0x00];
+    let ch = hxh(keccak256(&code));
+    let code2 = vec![0x5bu8];
+    let ch2 = hxh(keccak256(&code2));
+    let base = |l: &mut Vec<String>| {
+        l.push("begin db base".into());
+        l.push(format!("db base-acct 1 5 0 {ke} none 0"));
+        l.push(format!("db base-acct 2 0 1 {ch} none 0"));
+        l.push(format!("db base-acct 4 7 0 {ke} none 0"));
+        for (a, k, v) in [(1, 7, 9), (1, 8, 0x11), (2, 7, 0x21), (2, 8, 0x22), (2, 0, 0)] {
+            l.push(format!("db base-slot {a:x} {k:x} {v:x}"));
+        }
+        l.push(format!("db base-code {ch} {} {ch}", hxb(&code)));
+        l.push("db base-bh 10 abc".into());
+    };
+    // the info an account keeps when it is only touched / written
+    let keep = |x: u64| if x == 2 { format!("0,2,{ch},none,0") } else { format!("6,1,{ke},none,0") };
+    let sd = |x: u64| format!("db commit {x:x},ts,0,0,{ke},none,0,-");
+    let kinds: Vec<(&str, Box<dyn Fn(u64) -> Vec<String>>)> = vec![
+        ("sd", Box::new(|x| vec![sd(x)])),
+        ("sd-flags-tsc", Box::new(|x| vec![format!("db commit {x:x},tsc,0,0,{ke},none,0,9:5")])),
+        ("sd-recreate", Box::new(|x| vec![sd(x), format!("db commit {x:x},tc,1,1,{ke},{},{ch2},9:5", hxb(&code2))])),
+        ("sd-touch", Box::new(|x| vec![sd(x), format!("db commit {x:x},t,{},-", keep(x))])),
+        ("sd-write", Box::new(|x| vec![sd(x), format!("db commit {x:x},t,{},8:33", keep(x))])),
+        ("sd-sd", Box::new(|x| vec![sd(x), sd(x)])),
+        ("create", Box::new(|x| vec![format!("db commit {x:x},tc,1,1,{ke},{},{ch2},9:5", hxb(&code2))])),
+        ("touch", Box::new(|x| vec![format!("db commit {x:x},t,{},-", keep(x))])),
+        ("write", Box::new(|x| vec![format!("db commit {x:x},t,{},8:33/9:44/7:0", keep(x))])),
+        ("untouched", Box::new(|x| vec![format!("db commit {x:x},-,{},8:33", keep(x))])),
+        ("sd-other-write", Box::new(|x| vec![format!("db commit {x:x},ts,0,0,{ke},none,0,- {:x},t,{},8:33", 3 - x, keep(3 - x))])),
+        ("ins-info", Box::new(|x| vec![format!("db ins-info {x:x} 6 1 {ke} none 0")])),
+        ("ins-slot", Box::new(|x| vec![format!("db ins-slot {x:x} 8 55")])),
+        ("rep-storage", Box::new(|x| vec![format!("db rep-storage {x:x} 9:66")])),
+        ("rep-sd", Box::new(|x| vec![format!("db rep-storage {x:x} 9:66"), sd(x)])),
+        ("sd-ins-slot", Box::new(|x| vec![sd(x), format!("db ins-slot {x:x} 8 55")])),
+        ("sd-ins-info", Box::new(|x| vec![sd(x), format!("db ins-info {x:x} 6 1 {ke} none 0")])),
+    ];
+    let pres: Vec<Vec<String>> = vec![
+        vec![],
+        vec!["db q basic X".into()],
+        vec!["db q storage X 7".into()],
+        vec!["db q storage X 7".into(), "db q storage X 8".into(), "db q storage X 9".into(), "db q basic X".into()],
+        vec!["db load X".into()],
+    ];
+    // the value the change is applied to: the CacheDB itself, Box<CacheDB>, &mut CacheDB (commit only),
+    // or the outer layer of CacheDB<CacheDB<..>>
+    let vias: Vec<Vec<&str>> = vec![vec!["cache"], vec!["cache", "box"], vec!["cache", "mutref"], vec!["cache", "cache"]];
+    let stacks: Vec<Vec<&str>> = vec![
+        vec![], vec!["box"], vec!["mutref"], vec!["cache"], vec!["wrapref"], vec!["state"], vec!["cache", "cache"],
+        vec!["cache", "box"], vec!["cache", "wrapref"], vec!["cache", "state"], vec!["wrapref", "state"], vec!["wrapref", "box"],
+    ];
+    let probe = |l: &mut Vec<String>, x: u64, refable: bool| {
+        let accts = [x, 3 - x, 3];
+        if refable {
+            for a in accts {
+                l.push(format!("db paths hs {a:x}"));
+                l.push(format!("db paths basic {a:x}"));
+                for k in [7, 8, 9] {
+                    l.push(format!("db paths storage {a:x} {k:x}"));
+                }
+            }
+            l.push(format!("db paths code {ch}"));
+            l.push(format!("db paths code {ch2}"));
+            l.push(format!("db paths bh 10 {}", keccak_dec(16)));
+            l.push(format!("db r storage {x:x} 7"));
+        }
+        for a in accts {
+            l.push(format!("db q hs {a:x}"));
+            l.push(format!("db q basic {a:x}"));
+            for k in [7, 8, 9] {
+                l.push(format!("db q storage {a:x} {k:x}"));
+            }
+        }
+        l.push(format!("db q code {ch}"));
+        l.push(format!("db q code {ch2}"));
+        l.push(format!("db q bh 10 {}", keccak_dec(16)));
+        if refable {
+            // once more after the mutable reads have cached what they fetched
+            l.push(format!("db paths basic {x:x}"));
+            for k in [7, 8, 9] {
+                l.push(format!("db paths storage {x:x} {k:x}"));
+            }
+        }
+    };
+    for (_name, kind) in kinds.iter() {
+        for x in [1u64, 2] {
+            for stack in stacks.iter() {
+                let combos: Vec<(usize, usize)> =
+                    (0..pres.len()).flat_map(|p| (0..vias.len()).map(move |v| (p, v))).collect();
+                for (pi, vi) in combos {
+                    let change = kind(x);
+                    let via = &vias[vi];
+                    // ins-info / ins-slot / rep-storage / load exist on the CacheDB value only
+                    let direct_only = change.iter().any(|c| !c.starts_with("db commit")) || pres[pi].iter().any(|c| c.contains("load"));
+                    if direct_only && (via[1..] == ["box"] || via[1..] == ["mutref"]) {
+                        continue;
+                    }
+                    base(lines);
+                    lines.push(format!("db wrap {}", via[0]));
+                    if via.len() > 1 && via[1] == "cache" {
+                        // the inner layer of the nested pair has seen the account already
+                        lines.push(format!("db q storage {x:x} 7"));
+                        lines.push("db wrap cache".into());
+                    }
+                    for pl in &pres[pi] {
+                        lines.push(pl.replace('X', &format!("{x:x}")));
+                    }
+                    if via.len() > 1 && via[1] != "cache" {
+                        lines.push(format!("db wrap {}", via[1]));
+                    }
+                    lines.extend(change);
+                    for w in stack {
+                        lines.push(format!("db wrap {w}"));
+                    }
+                    // is the top still borrowable as a DatabaseRef?
+                    let top_cache = match stack.last() {
+                        None => true,
+                        Some(&"cache") => true,
+                        Some(&"box") | Some(&"mutref") => {
+                            let below = if stack.len() >= 2 { stack[stack.len() - 2] } else { *via.last().unwrap() };
+                            below == "cache"
+                        }
+                        _ => false,
+                    };
+                    probe(lines, x, top_cache);
+                }
+            }
+        }
+    }
+}
+
 pub fn gen(seed: u64, n: usize) -> Vec<String> {
     let mut rng = Rng::new(seed ^ 0xC20);
     let mut lines = vec![];
     scenarios(&mut lines);
+    commit_grid(&mut lines);
     for i in 0..n {
         let max_ops = if i % 10 == 0 { 120 } else { 40 };
         gen_case(&mut rng, &mut lines, max_ops);
@@ -874,7 +1219,7 @@ pub fn run(seed: u64, n: usize, replay: Option<Vec<String>>, out: &mut Out) {
         let r = guarded(std::panic::AssertUnwindSafe(|| exec(&mut cur, &l)));
         let t: Vec<&str> = l.split(' ').collect();
         let key = if t[0] == "begin" { format!("begin:{}", t.get(2).unwrap_or(&"?")) } else {
-            match t.get(1) { Some(&"q") | Some(&"r") => format!("{}:{}", t[1], t.get(2).unwrap_or(&"?")), Some(&"wrap") => format!("wrap:{}", t.get(2).unwrap_or(&"?")), Some(x) => x.to_string(), None => "?".into() }
+            match t.get(1) { Some(&"q") | Some(&"r") | Some(&"paths") => format!("{}:{}", t[1], t.get(2).unwrap_or(&"?")), Some(&"wrap") => format!("wrap:{}", t.get(2).unwrap_or(&"?")), Some(x) => x.to_string(), None => "?".into() }
         };
         out.count(&key);
         if r == "panic" { out.count("reply:panic"); }
